@@ -56,6 +56,12 @@ def cpp_source(shard):
             L.append('  { vh_fenced<T,%d> out(77777); _transpose<T,%d,%d>(A.data(), out.data()); std::printf("F %%ld %%d\\n", id, out.fence_damage()); vh_line("E", id, out.data(), %d); }' % (M * N, M, N, M * N))
             L.append('  { Tensor<T,%d,%d> r = transpose(A); vh_line("X", id, r.data(), %d); Tensor<T,%d,%d> l = trans(A); vh_line("X", id, l.data(), %d); Tensor<T,%d,%d> e = trans(A + (T)0); vh_line("X", id, e.data(), %d); }' % (N, M, M * N, N, M, M * N, N, M, M * N))
             L.append('  { Tensor<T,%d,%d> r = transpose(transpose(A)); vh_line("RT", id, r.data(), %d); }' % (M, N, M * N))
+            # trans() as the operand of every compound assignment and of elementwise arithmetic (the assign_* overloads of unary_trans_op.h);
+            # every result below is again the transpose of A (exact on these integer data: a*(a+1)/(a+1))
+            L.append('  { Tensor<T,%d,%d> A1 = A + (T)1; Tensor<T,%d,%d> C; C.fill((T)0); C += trans(A); vh_line("X", id, C.data(), %d); C = trans(A) + trans(A); C -= trans(A); vh_line("X", id, C.data(), %d);'
+                     ' C.fill((T)1); C *= trans(A); vh_line("X", id, C.data(), %d); C = transpose(A) * (transpose(A) + (T)1); C /= trans(A1); vh_line("X", id, C.data(), %d);'
+                     ' Tensor<T,%d,%d> P = transpose(A) * (transpose(A) + (T)1); Tensor<T,%d,%d> D = P / trans(A1); vh_line("X", id, D.data(), %d); D = P / trans(A + (T)1); vh_line("X", id, D.data(), %d);'
+                     ' D = trans(A1) - (T)1; vh_line("X", id, D.data(), %d); }' % (M, N, N, M, M * N, M * N, M * N, M * N, N, M, N, M, M * N, M * N, M * N))
             L.append('}')
         else:
             T = TYPES[c['ty']][0]; M, N = c['M'], c['N']
@@ -74,6 +80,8 @@ def main():
     cases = gen_cases(sd, tr); byid = {c['id']: c for c in cases}
     cfgs = quick_grid() if tr == 'quick' else thorough_grid() + [Config('avx2', 'c++17', '-O2', ['CONTRACT_OPT=-1']), Config('sse2', 'c++14', '-O2', ['CONTRACT_OPT=-1']), Config('avx512', 'c++17', '-O2', ['CONTRACT_OPT=-1'])]
     if tr == 'quick': cfgs = cfgs + [Config('avx2', 'c++17', '-O2', ['CONTRACT_OPT=-1']), Config('sse2', 'c++14', '-O1', ['CONTRACT_OPT=-1'])]
+    # the blocked AVX transpose with unequal block sizes (the default 1 x 1 hides row / column block mix-ups)
+    cfgs = cfgs + [Config('avx2', 'c++14', '-O2', ['FASTOR_TRANS_OUTER_BLOCK_SIZE=2']), Config('avx512', 'c++17', '-O2', ['FASTOR_TRANS_INNER_BLOCK_SIZE=2'])]
     nshard = 6 if tr == 'quick' else 16
     shards = [cases[i::nshard] for i in range(nshard)]
     ocaml_ready()
